@@ -837,6 +837,12 @@ class Pass2(CompilePass):
             self.compilation.validate_decl(decl)
 
             if decl.array_dims:
+                if len(decl.array_dims) > 255:
+                    # the number of dimensions is a one-byte operand
+                    raise CompileError(
+                        EC.INVALID_DIMENSIONS,
+                        'Too many dimensions',
+                        node=decl)
                 for dim_range in decl.array_dims:
                     if not dim_range.is_const:
                         continue
